@@ -9,6 +9,7 @@ import (
 	"runtime"
 	"sort"
 	"strings"
+	"sync"
 	"testing"
 	"testing/synctest"
 	"time"
@@ -17,7 +18,7 @@ import (
 	"github.com/rulego/streamsql/functions"
 	"github.com/rulego/streamsql/logger"
 	"github.com/rulego/streamsql/types"
-	"github.com/rulego/streamsql/utils/simrt"
+	"verif.local/simrt"
 )
 
 // ---------------------------------------------------------------------------------------------
@@ -213,6 +214,7 @@ type Env struct {
 	LogErr []string // engine log lines at Error/Warn level
 	hooks  PropHooks
 	Ended  bool
+	logMu  sync.Mutex
 	// IngestT: fake times at which the watermark recorded an event arrival (observed through the
 	// scheduler's grant of the lock site "window/watermark.go:*:lock:UpdateEventTime"; the next
 	// thing that goroutine does is read the clock into lastEventTime); index = arrival number
@@ -268,6 +270,13 @@ func (e *Env) Violate(class, site, format string, args ...any) {
 }
 
 func (e *Env) Logf(format string, args ...any) {
+	// after the verdict the simulation free-runs to tear down; sinks may still fire then, on
+	// several goroutines at once: nothing is logged any more
+	e.logMu.Lock()
+	defer e.logMu.Unlock()
+	if e.Ended {
+		return
+	}
 	line := fmt.Sprintf("%06d %12d ", e.Sim.Step(), int64(e.Sim.Now())) + fmt.Sprintf(format, args...)
 	e.hash.Write([]byte(line))
 	e.hash.Write([]byte{'\n'})
@@ -293,7 +302,7 @@ func (l capLogger) Debug(format string, args ...any) {
 		}
 	}
 }
-func (l capLogger) Info(format string, args ...any)  {}
+func (l capLogger) Info(format string, args ...any) {}
 func (l capLogger) Warn(format string, args ...any) {
 	l.e.LogErr = append(l.e.LogErr, "W:"+format)
 }
@@ -631,7 +640,7 @@ func Census() []string {
 			if strings.HasPrefix(l, "verifsim.") || strings.HasPrefix(l, "verifsim/") {
 				harness = true
 			}
-			if top == "" && strings.HasPrefix(l, "github.com/rulego/streamsql") && !strings.Contains(l, "/utils/simrt.") {
+			if top == "" && strings.HasPrefix(l, "github.com/rulego/streamsql") && !strings.Contains(l, "verif.local/simrt.") {
 				top = l
 			}
 		}
@@ -728,7 +737,9 @@ func RunCase(t *testing.T, c *Case, decs []simrt.Decision, strict bool, keepLog 
 			env.finish()
 		})
 	}()
-	res.Digest = hex.EncodeToString(h.Sum(nil))[:16]
+	if res.Digest == "" {
+		res.Digest = "incomplete" // the property returned before finish() (infra problem)
+	}
 	return res
 }
 
@@ -766,7 +777,12 @@ func (e *Env) finish() {
 			r.EngineLog = append(r.EngineLog, l)
 		}
 	}
+	e.logMu.Lock()
 	e.Ended = true
+	if hs, ok := e.hash.(interface{ Sum([]byte) []byte }); ok {
+		r.Digest = hex.EncodeToString(hs.Sum(nil))[:16]
+	}
+	e.logMu.Unlock()
 	// a run that ended in a deadlock cannot be torn down: the deadlocked goroutines would block
 	// on real mutexes (not durably, for synctest) as soon as they are released. The verdict is
 	// complete; hand it out and leave the process.
